@@ -2,6 +2,7 @@ import Rooc.WireModel
 import Rooc.Builder
 import Rooc.BuilderHist
 import Rooc.WireSolve
+import Rooc.Pipes
 import Rooc.Drv.C03
 namespace Rooc.Drv.C16
 open Rooc Sexp Builder
@@ -94,7 +95,32 @@ def history (α : Type) [Arith α] [Wire α] (ops : List Sexp) (rest : List Sexp
       | _, _, _, _ => app "err" [.atom "decode-solution"]
     | _ => app "err" [.atom "bad-request"]
 
+/-! ### the staged pipe runner (`run-pipe` request)
+
+```
+request  ::= run-pipe (pipes NAME*) TYPE (fail N | none)      -- NAME = the Rust struct name, TYPE = PipeDataType
+response ::= (ok TYPE*) | (err (invalid-data TYPE TYPE) | (stage VARIANT)  (results TYPE*))
+```
+-/
+open Pipes in
+def runPipeReq (pipes : List Sexp) (start fail : Sexp) : Sexp :=
+  let kinds := optAll (pipes.map fun | .atom n => PipeKind.ofName n | _ => none)
+  let st := match start with | .atom n => DataTy.ofName n | _ => none
+  let fa : Option (Option Nat) := match fail with
+    | .atom "none" => some none
+    | .list [.atom "fail", n] => (decNat n).map some
+    | _ => none
+  match kinds, st, fa with
+  | some kinds, some st, some fa =>
+    let tys (l : List DataTy) : List Sexp := l.map fun t => .atom t.name
+    match runTags kinds st fa with
+    | .ok rs => app "ok" (tys rs)
+    | .error (.invalidData e g, rs) => app "err" [app "invalid-data" [.atom e.name, .atom g.name], app "results" (tys rs)]
+    | .error (.stage v, rs) => app "err" [app "stage" [.atom v], app "results" (tys rs)]
+  | _, _, _ => app "err" [.atom "decode"]
+
 def handle (α : Type) [Arith α] [Wire α] : List Sexp → Sexp
+  | [.atom "run-pipe", .list (.atom "pipes" :: ps), start, fail] => runPipeReq ps start fail
   | .atom "history" :: .list (.atom "ops" :: ops) :: rest => history α ops rest
   | [.atom "eval-expr", e, .list (.atom "vals" :: vs)] =>
     match (Exp.dec e : Option (Exp α)), (optAll (vs.map decNumS) : Option (List α)) with
